@@ -334,6 +334,14 @@ func checkC13(p *Prog, c *Check) {
 	ruleReadOnly(p, c, "R13.1")
 	rulePackageState(p, c, "R13.2")
 	// R13.3
+	ruleReadPacketFresh(p, c, "R13.3")
+	c.Floor("read-only roots", c.Measured["read_only_roots"], 15*3, "15 packet types, each with at least WriteTo, String and one accessor")
+	_ = types.Typ
+}
+
+// ruleReadPacketFresh: ReadPacket writes only memory allocated during the call (its own reader aside) and the
+// packet it returns is allocated during the call — two calls can never hand out or modify the same packet.
+func ruleReadPacketFresh(p *Prog, c *Check, rule string) {
 	rp, msg := p.readPacketAnchor()
 	if rp == nil {
 		c.Bad("anchor", "ReadPacket", "-", msg)
@@ -357,11 +365,22 @@ func checkC13(p *Prog, c *Check) {
 		if w.Kind == EUnknown || w.Target.Kind == PUnknown {
 			st = Undecided
 		}
-		c.add("R13.3", "ReadPacket", posOf(p, w.Ins), st, fmt.Sprintf("ReadPacket %s on %s; path: %s", w.Kind, w.Target, chainText(p, rp, w.Chain, w.Ins)))
+		c.add(rule, "ReadPacket", posOf(p, w.Ins), st, fmt.Sprintf("ReadPacket %s on %s; path: %s", w.Kind, w.Target, chainText(p, rp, w.Chain, w.Ins)))
+	}
+	// the returned packet
+	if len(s.Results) > 0 {
+		for pv := range s.Results[0] {
+			if pv.Kind != PFresh {
+				nbad++
+				st := Violated
+				if pv.Kind == PUnknown {
+					st = Undecided
+				}
+				c.add(rule, "ReadPacket#result", p.Pos(rp.Pos()), st, fmt.Sprintf("the packet returned by ReadPacket may be %s, not an object allocated by this call: two calls can return (and overwrite) the same packet", pv))
+			}
+		}
 	}
 	if nbad == 0 {
-		c.OK("R13.3", "ReadPacket", p.Pos(rp.Pos()), "all writes go to memory allocated during the call; the only outside effect is Read on its own reader")
+		c.OK(rule, "ReadPacket", p.Pos(rp.Pos()), "all writes go to memory allocated during the call and the returned packet is allocated during the call; the only outside effect is Read on its own reader")
 	}
-	c.Floor("read-only roots", c.Measured["read_only_roots"], 15*3, "15 packet types, each with at least WriteTo, String and one accessor")
-	_ = types.Typ
 }
